@@ -9,6 +9,14 @@ ids = [json.loads(l)['id'] for l in (V / 'properties.jsonl').read_text().splitli
 TECH = 'contract-based deductive verification: own VC generator (pyvc) over the real .py/.pyx source, sidecar contracts, z3/cvc5'
 
 CLAIMED = {
+	'C13': dict(
+		text='calc_file_signatures is verified on all executor branches (sequential, thread pool, process pool, caller-supplied executor, invalid mode) against: one signature per file, in file order, each THE single-file result, and failure of the whole call iff some file fails. The completion loop is proved for an ARBITRARY permutation of the futures (as_completed specified as: every future once, any order), i.e. for every schedule; submission-loop invariant makes the future->index map injective. Loop/exit reachability canaries guard against vacuity. Bounded companion: the real function driven by an executor stub through every completion order for n <= 5.',
+		note='Trusted: the concurrent.futures contract (fresh futures, as_completed permutation, result() value or exception), pickling in process mode, progress helpers, calc_file_signature as a function of its arguments.',
+		design='3/C13'),
+	'C14': dict(
+		text='Every distance computation carries the ghost precondition "both sides have the same k-mer spec" (jaccarddist_matrix, query); dist_cmd (8 option instances x symbolic flags), query_cmd (both input channels), query_parse and kspec_from_params are verified against it, together with "nothing is written on an error path" (ghost flag set by the writers). The decision table of dist_cmd discharges; the query_cmd -s obligation failed on the original tree, was replayed on the real CLI (foreign-parameter signature file accepted), repaired by a fix: commit, and now discharges.',
+		note='Trusted: click semantics, opaque KmerSpec equality, contracts of load_signatures / calc_file_signatures / get_sequence_files (C12/C13/C08).',
+		design='3/C14'),
 	'C03': dict(
 		text='Taxon.ancestors (generator), matching_taxon, reportable_taxon, GenomeMatch.next_taxon (three loops), the attrs default methods and classify(strict=False) are verified over a ghost forest theory (depth function, i-th ancestor, least covering lineage index as a defined spec function) for every forest, genome assignment and distance vector including distances equal to a threshold; monotonicity is a lemma. The check first flagged next_taxon on the original tree (bounded real-code witness: a taxon without threshold returned as next); repaired by a fix: commit and now discharged.',
 		note='Trusted: ORM attribute reads pure, argmin = first minimum, distances/thresholds as reals (no NaN), attrs constructors, finite-forest well-formedness as an axiom.',
